@@ -847,6 +847,95 @@ def inspect_getattr_static(tp: Any, name: str) -> Any:
 
 
 # ---------------------------------------------------------------------------
+# validation order across DIFFERENT classes: an unknown member named like an attribute of another class
+# ---------------------------------------------------------------------------
+def class_specific_names() -> Dict[str, List[str]]:
+    """qualified class name -> public attribute/method names that class has beyond the common base and its own fields."""
+    if "classes" not in _STATE:
+        backend_facts()
+    base = set(dir(wiregen.base_class()))
+    out = {}
+    for q, c in sorted(_STATE["classes"].items()):
+        own = {f.name for f in wiregen.fields(c)} | {f.wire for f in wiregen.fields(c)}
+        names = sorted(n for n in dir(c) if not n.startswith("_") and n not in base and n not in own)
+        if names:
+            out[q] = names
+    return out
+
+
+def op_seqfork(case: Dict[str, Any]) -> Any:
+    """The validate cases of case["cases"], one after the other, in a process forked for this sequence."""
+    from .encseq import in_fork
+
+    if "classes" not in _STATE:
+        backend_facts()
+    try:
+        return in_fork(lambda: [op_validate(c) for c in case["cases"]])
+    except Exception as e:  # noqa: BLE001
+        return [{"ok": False, "exc": "fork:" + type(e).__name__, "detail": str(e)[:200]}]
+
+
+# ---------------------------------------------------------------------------
+# objects built by application code with defaults left unset, serialised with default arguments
+# ---------------------------------------------------------------------------
+def discover_wrappers() -> List[Any]:
+    """Non-model classes under chuk_mcp.protocol that offer model_dump_json and take one object to wrap."""
+    import inspect
+    import sys
+
+    if "classes" not in _STATE:
+        backend_facts()
+    out = []
+    for mname, mod in sorted(sys.modules.items()):
+        if not mname.startswith("chuk_mcp.protocol") or mod is None:
+            continue
+        for n, obj in sorted(vars(mod).items()):
+            if inspect.isclass(obj) and obj.__module__ == mname and not is_model_class(obj) and hasattr(obj, "model_dump_json"):
+                try:
+                    params = [p for p in inspect.signature(obj.__init__).parameters.values() if p.name != "self"]
+                except (TypeError, ValueError):
+                    continue
+                if len(params) == 1:
+                    out.append(obj)
+    return out
+
+
+def op_constructed(case: Dict[str, Any]) -> Dict[str, Any]:
+    """Build the object the way application code does - the class called with keyword arguments for the given members
+    only (attribute names), everything else left to its default - and serialise it with DEFAULT arguments, directly and
+    through every wrapper class of the package that accepts it."""
+    import json as _json
+
+    cls = cls_of(case["target"])
+    wire = dec(case["wire"])
+    attr = {f.wire: f.name for f in wiregen.fields(cls)}
+    try:
+        x = cls(**{attr.get(k, k): v for k, v in wire.items()})
+    except Exception as e:  # noqa: BLE001
+        return {"ok": False, **exc_facts(e)}
+    out: Dict[str, Any] = {"ok": True, "calls": {}}
+
+    def rec(name, f):
+        try:
+            r = f()
+            out["calls"][name] = {"value": enc(_json.loads(r) if isinstance(r, str) else to_plain(r))}
+        except Exception as e:  # noqa: BLE001
+            out["calls"][name] = {"exc": type(e).__name__}
+
+    rec("model_dump()", lambda: x.model_dump())
+    rec("model_dump_json()", lambda: x.model_dump_json())
+    for w in discover_wrappers():
+        for label, obj in ((w.__name__ + "(x)", lambda: w(x)), (w.__name__ + "([x, x])", lambda: w([x, x]))):
+            try:
+                wrapped = obj()
+            except Exception:  # noqa: BLE001
+                continue
+            rec(label + ".model_dump()", lambda: wrapped.model_dump())
+            rec(label + ".model_dump_json()", lambda: wrapped.model_dump_json())
+    return out
+
+
+# ---------------------------------------------------------------------------
 # sequences of id validations in one process (the id type is one Union object shared by all envelope classes)
 # ---------------------------------------------------------------------------
 UNION_IDS = ["abc", "7", 5, 3.0, 3.5, -0.0, 1e3, True, False]
@@ -1112,6 +1201,12 @@ def child_handle(case: Any) -> Any:
         return op_shared(case)
     if op == "unionseq":
         return op_unionseq(case)
+    if op == "seqfork":
+        return op_seqfork(case)
+    if op == "constructed":
+        return op_constructed(case)
+    if op == "class_names":
+        return {"names": class_specific_names()}
     if op == "helper":
         return op_helper(case)
     if op == "helpers":
